@@ -517,6 +517,7 @@ var queryFamily = map[string]string{
 	"xattr":  `SELECT json_quote(id) AS id, xattrs->'$._sync' AS sync FROM $_keyspace WHERE xattrs->'$._sync' IS NOT NULL`,
 	"count":  `SELECT count(*) AS n FROM $_keyspace`,
 	"xnull":  `SELECT json_quote(id) AS id FROM $_keyspace WHERE xattrs IS NULL`,
+	"like":   `SELECT json_quote(id) AS id FROM $_keyspace WHERE id LIKE $pat`,
 	"idnum":  `SELECT json_quote(id) AS id FROM $_keyspace WHERE id = 'k' || $n`,
 	"veq":    `SELECT json_quote(id) AS id FROM $_keyspace WHERE json_type(body, '$.v') = 'integer' AND body->>'$.v' = $n`,
 }
@@ -547,6 +548,12 @@ func (e *e1) expectedQuery(coll int, kind string, args map[string]any) []string 
 			}
 		case "str":
 			if s, ok := doc["s"].(string); ok && s == args["s"].(string) {
+				rows = append(rows, canonKey(map[string]any{"id": id}))
+			}
+		case "like":
+			// SQLite's LIKE: % matches any run of characters, ASCII letters match regardless of case
+			pat, _ := args["pat"].(string)
+			if strings.HasSuffix(pat, "%") && strings.HasPrefix(strings.ToLower(id), strings.ToLower(strings.TrimSuffix(pat, "%"))) {
 				rows = append(rows, canonKey(map[string]any{"id": id}))
 			}
 		case "idnum":
@@ -589,8 +596,9 @@ func (e *e1) doQuery(op *Op) *Violation {
 	firedBefore := e.armFaults()
 	iter, err := c.Query(sgbucket.SQLiteLanguage, stmt, args, sgbucket.RequestPlus, adhoc)
 	vfs.ClearFaults()
-	if kind := e.faultFired(firedBefore); kind != "" && err != nil && ioFailure(&Res{Err: classify(err), ErrText: err.Error()}) {
-		e.probe("fault.query-failed:" + kind)
+	faultKind := e.faultFired(firedBefore)
+	if faultKind != "" && err != nil && ioFailure(&Res{Err: classify(err), ErrText: err.Error()}) {
+		e.probe("fault.query-failed:" + faultKind)
 		return nil
 	}
 	if err != nil {
@@ -652,6 +660,12 @@ func (e *e1) doQuery(op *Op) *Violation {
 	}
 	sort.Strings(got)
 	e.logf("#%d Query(c%d %s %v) -> %d rows", e.step, op.Coll, op.Path, args, len(got))
+	if cerr != nil && faultKind != "" && ioFailure(&Res{Err: classify(cerr), ErrText: cerr.Error()}) {
+		// (an in-memory bucket runs the statement inside Query and hands its error out when the iterator
+		// is closed: the injected failure, reported where rosmar reports it)
+		e.probe("fault.query-failed-at-close:" + faultKind)
+		return nil
+	}
 	if cerr != nil {
 		return e.violate([]string{"C19"}, "query.close", "step %d: the iterator of Query(%s) reported %v", e.step, op.Path, cerr)
 	}
@@ -688,4 +702,19 @@ func intArg(v any) int64 {
 		return int64(n)
 	}
 	return 0
+}
+
+// doCreateIndex creates (or re-creates) an index on the collection: an index is an access path
+// and must not change what any query returns afterwards.
+func (e *e1) doCreateIndex(op *Op) *Violation {
+	c := e.w.Colls[0][op.Coll].(*rosmar.Collection)
+	name := fmt.Sprintf("ix%d_%d", op.Coll, op.Dur%3)
+	expr := []string{"body->>'$.s'", "id", "body->>'$.v'"}[op.Dur%3]
+	err := c.CreateIndex(name, expr, "")
+	e.logf("#%d CreateIndex(c%d %s on %s) -> %v", e.step, op.Coll, name, expr, err != nil)
+	if err != nil && err != sgbucket.ErrIndexExists {
+		return e.violate([]string{"C19"}, "index.create", "step %d: CreateIndex(%s, %s) failed: %v", e.step, name, expr, err)
+	}
+	e.probe("index.created")
+	return nil
 }
